@@ -11,7 +11,8 @@
 
    The finding class (D07) is decided on the INPUT only: the generator's description of the state ([si_want]), or of
    what it was derived from ([si_src_rep]), contains a ground fluent or an action call with a repeated argument.  What
-   the implementation made of the input (the dump) never decides the class. *)
+   the implementation made of the input (the dump) never decides the class.  Likewise D90 / D91 ([si_src_int]): the
+   description stores a Python int in a fluent (set_value(3)) or never sets its value (the default is the int 0). *)
 From Coq Require Import List Ascii String Bool Arith PrimFloat.
 From Verif Require Import Base.Result Base.Str Base.Sexp Base.PyDict Base.Float Model.Tokenizer Model.Types Model.Domain
   Model.State Model.Trajectory Spec.Pddl Spec.State Corr.Common.
@@ -32,6 +33,7 @@ Record sinfo := {
   si_copy_ser : obs string;         (* s.copy().serialize() *)
   si_indep : obs bool;              (* mutating the copy leaves s as it was, and the other way round *)
   si_src_rep : bool;                (* INPUT: the description this state is derived from has a repeated argument *)
+  si_src_int : bool;                (* INPUT: ... hands a Python int to set_value, or leaves a fluent unset (D90 / D91) *)
   (* s.serialize() read back by the library's own reader, TrajectoryParser(domain, problem).parse_state, with the
      group's object table / without a problem: (s' == s and s == s', s'.serialize()); None: not observed *)
   si_rb_with : option (obs (bool * string));
@@ -60,7 +62,7 @@ Section Judge.
 
   Definition dummy : sinfo :=
     {| si_dump := empty_state false; si_want := None; si_ser := Raised; si_self_eq := Raised; si_copy_eq := Raised;
-       si_copy_ser := Raised; si_indep := Raised; si_src_rep := false; si_rb_with := None; si_rb_ded := None |}.
+       si_copy_ser := Raised; si_indep := Raised; si_src_rep := false; si_src_int := false; si_rb_with := None; si_rb_ded := None |}.
   Definition st (i : nat) : sinfo := nth i (e_states E) dummy.
 
   Definition den (s : mstate) : state := {| facts := den_facts s; fluents := den_fluents s |}.
@@ -84,7 +86,7 @@ Section Judge.
   (* finding D07: a ground fluent with a repeated argument -- in the generator's description, never in the dump *)
   Definition has_repeat (s : state) : bool := existsb (fun kv => has_dup (snd (fst kv))) (fluents s).
   Definition known_state (i : sinfo) : bool :=
-    match si_want i with Some w => has_repeat w | None => false end || si_src_rep i.
+    match si_want i with Some w => has_repeat w | None => false end || si_src_rep i || si_src_int i.
 
   Definition is_true (o : obs bool) : bool := obs_eqb Bool.eqb o (Returned true).
 
